@@ -218,6 +218,9 @@ public:
 
         // Store whether a contains 0, to simplify the expression below.
         const bool a_zero = a.lower() <= 0.0f && a.upper() >= 0.0f;
+        if (a_zero && bPt < 0) {
+            out = I(-INFINITY, INFINITY);
+        }
 
         const bool u = a.maybe_nan || b.maybe_nan ||
            (a_zero && (bPt == 0.0f || (bPt < 0.0f && nanOnZeroToNegative))) ||
@@ -388,7 +391,10 @@ public:
     static Interval recip(const Interval& a)
     {
         // The numerator can't be 0, so a denominator of 0 won't produce NaN
-        return Interval(1.0f / a.i, a.maybe_nan);
+        auto i = (a.lower() <= 0.0f && a.upper() >= 0.0f)
+            ? I(-INFINITY, INFINITY)
+            : (1.0f / a.i);
+        return Interval(i, a.maybe_nan);
     }
 
 protected:
